@@ -134,59 +134,9 @@ def rules(ctx):
 
     model_classes = {c.name for c in P.subclasses_of('DictArithmetic')}
 
-    # ------------------------------------------------------------ R14.1
-    for fn in P.all_funcs():
-        if fn.outer is not None:
-            continue
-        own_self = R.self_name(fn)
-        for node, obj, f, kind, detail in field_writes(fn.node, ALLF):
-            if fn.cls is not None and fn.cls.name not in model_classes and obj == own_self:
-                continue   # e.g. GraphPartitioning._degree: not a model cache
-            q = fn.qual
-            ent = WRITERS.get(q)
-            ok = ent is not None and f in ent[0]
-            ctx.inst('R14.1', fn, node, ok,
-                     ("allowed writer (%s)" % ent[1]) if ok else
-                     "%s writes %s.%s but is not in the writer table for that field: the cache can be "
-                     "changed outside the maintained paths" % (q, obj, f),
-                     nontrivial=not ok or q not in ('BO.__init__', 'PUBOMatrix.__init__'))
-
-    # ------------------------------------------------------------ R14.2
-    for q in ('BO.__setitem__', 'BO.set_mapping', 'BO.set_reverse_mapping', 'BO.__init__',
-              'PUSO._create_pubo'):
-        if not P.has_func(q):
-            continue
-        fn = P.func(q)
-        ws = field_writes(fn.node, {'_mapping', '_reverse_mapping'})
-        items = [w for w in ws if w[3] == 'item']
-        for node, obj, f, kind, (k, v) in items:
-            other = '_reverse_mapping' if f == '_mapping' else '_mapping'
-            blk = parent(enclosing_stmt(node))
-            mate = [w for w in items if w[2] == other and w[1] == obj and
-                    parent(enclosing_stmt(w[0])) is blk and
-                    src(w[4][0]) == src(v) and src(w[4][1]) == src(k)]
-            ctx.inst('R14.2', fn, node, bool(mate),
-                     "paired with the inverse entry" if mate else
-                     "%s.%s[%s] = %s has no inverse entry %s[%s] = %s in the same block"
-                     % (obj, f, src(k), src(v), other, src(v), src(k)))
-        whole = [w for w in ws if w[3] == 'assign']
-        for node, obj, f, kind, v in whole:
-            other = '_reverse_mapping' if f == '_mapping' else '_mapping'
-            blk = parent(enclosing_stmt(node))
-            mate = [w for w in whole if w[2] == other and w[1] == obj and
-                    parent(enclosing_stmt(w[0])) is blk]
-            ok = bool(mate)
-            msg = "both halves replaced together"
-            if ok and v is not None and mate[0][4] is not None:
-                a, b = src(v), src(mate[0][4])
-                # same source: {} / {} or X.mapping / X.reverse_mapping
-                def base(t):
-                    return t.replace('reverse_mapping', 'M').replace('_mapping', 'M').replace('mapping', 'M')
-                if not (a == b == '{}' or (base(a) == base(b) and a != b)):
-                    ok, msg = False, "halves come from different sources: %s vs %s" % (a, b)
-            elif not ok:
-                msg = "%s.%s replaced without replacing %s in the same block" % (obj, f, other)
-            ctx.inst('R14.2', fn, node, ok, msg)
+    # ------------------------------------------------------------ R14.1 / R14.2
+    who_may_write(ctx, 'R14.1', ALLF)
+    inverse_pairs(ctx, 'R14.2')
 
     # ------------------------------------------------------------ R14.3
     fn = P.func('PUBOMatrix.__setitem__')
@@ -488,4 +438,69 @@ def registration_parity(ctx, rid):
         ctx.inst(rid, (P.cls(c).module.relpath, c), '%s.__setitem__ chain' % c, ok,
                  "BO.__setitem__ -> PUBOMatrix.__setitem__" if ok else
                  "__setitem__ chain of %s is %s -> %s" % (c, getattr(a, 'qual', a), getattr(b, 'qual', b)))
+
+
+
+def who_may_write(ctx, rid, fields):
+    """R14.1 for the given field set."""
+    P, R = ctx.prog, ctx.res
+    model_classes = {c.name for c in P.subclasses_of('DictArithmetic')}
+    # ------------------------------------------------------------ R14.1
+    for fn in P.all_funcs():
+        if fn.outer is not None:
+            continue
+        own_self = R.self_name(fn)
+        for node, obj, f, kind, detail in field_writes(fn.node, fields):
+            if fn.cls is not None and fn.cls.name not in model_classes and obj == own_self:
+                continue   # e.g. GraphPartitioning._degree: not a model cache
+            q = fn.qual
+            ent = WRITERS.get(q)
+            ok = ent is not None and f in ent[0]
+            ctx.inst(rid, fn, node, ok,
+                     ("allowed writer (%s)" % ent[1]) if ok else
+                     "%s writes %s.%s but is not in the writer table for that field: the cache can be "
+                     "changed outside the maintained paths" % (q, obj, f),
+                     nontrivial=not ok or q not in ('BO.__init__', 'PUBOMatrix.__init__'))
+
+
+
+def inverse_pairs(ctx, rid):
+    """R14.2: mapping / reverse mapping written as inverse pairs."""
+    P, R = ctx.prog, ctx.res
+    # ------------------------------------------------------------ R14.2
+    for q in ('BO.__setitem__', 'BO.set_mapping', 'BO.set_reverse_mapping', 'BO.__init__',
+              'PUSO._create_pubo'):
+        if not P.has_func(q):
+            continue
+        fn = P.func(q)
+        ws = field_writes(fn.node, {'_mapping', '_reverse_mapping'})
+        items = [w for w in ws if w[3] == 'item']
+        for node, obj, f, kind, (k, v) in items:
+            other = '_reverse_mapping' if f == '_mapping' else '_mapping'
+            blk = parent(enclosing_stmt(node))
+            mate = [w for w in items if w[2] == other and w[1] == obj and
+                    parent(enclosing_stmt(w[0])) is blk and
+                    src(w[4][0]) == src(v) and src(w[4][1]) == src(k)]
+            ctx.inst(rid, fn, node, bool(mate),
+                     "paired with the inverse entry" if mate else
+                     "%s.%s[%s] = %s has no inverse entry %s[%s] = %s in the same block"
+                     % (obj, f, src(k), src(v), other, src(v), src(k)))
+        whole = [w for w in ws if w[3] == 'assign']
+        for node, obj, f, kind, v in whole:
+            other = '_reverse_mapping' if f == '_mapping' else '_mapping'
+            blk = parent(enclosing_stmt(node))
+            mate = [w for w in whole if w[2] == other and w[1] == obj and
+                    parent(enclosing_stmt(w[0])) is blk]
+            ok = bool(mate)
+            msg = "both halves replaced together"
+            if ok and v is not None and mate[0][4] is not None:
+                a, b = src(v), src(mate[0][4])
+                # same source: {} / {} or X.mapping / X.reverse_mapping
+                def base(t):
+                    return t.replace('reverse_mapping', 'M').replace('_mapping', 'M').replace('mapping', 'M')
+                if not (a == b == '{}' or (base(a) == base(b) and a != b)):
+                    ok, msg = False, "halves come from different sources: %s vs %s" % (a, b)
+            elif not ok:
+                msg = "%s.%s replaced without replacing %s in the same block" % (obj, f, other)
+            ctx.inst(rid, fn, node, ok, msg)
 
